@@ -519,5 +519,9 @@ func runDaemon(cfg Cfg) {
 			delete(d.toKill, p)
 		}
 	}
+	if cfg.Thorough() {
+		// a daemon that needs several seconds before Done(): Launch must still wait for it
+		d.scenario("very-slow", 1, 6500, false, false)
+	}
 	s.Notes = append(s.Notes, "daemon survives the caller's exit: checked in scenario caller-exits (the caller process has exited when the daemon is inspected)")
 }
